@@ -583,10 +583,19 @@ impl<'a> World<'a> {
   fn wait_until(&mut self, limit_s: f64, pred: &dyn Fn(&World) -> bool) -> Option<f64> {
     let mut u = Unstalled::new();
     let t0 = Instant::now();
+    let mut iters = 0u64;
+    let mut pump_s = 0.0f64;
     loop {
+      let tp = Instant::now();
       self.pump();
+      pump_s += tp.elapsed().as_secs_f64();
+      iters += 1;
       if pred(self) {
-        return Some(t0.elapsed().as_secs_f64());
+        let el = t0.elapsed().as_secs_f64();
+        if el > 30.0 && std::env::var("VERIF_DEBUG").is_ok() {
+          eprintln!("C07 debug: slow wait {el:.1}s wall, {iters} iterations, {pump_s:.1}s in pump, unstalled {:.1}s, topic {}", u.acc, self.topic_name);
+        }
+        return Some(el);
       }
       if u.tick() > limit_s {
         return None;
